@@ -385,6 +385,8 @@ struct Vis<'a> {
     only: Option<String>,
     /// None: every window 1..=len+3; Some: the listed windows (long series)
     ws: Option<Vec<usize>>,
+    /// bit i set: element i of the series is a null (Option<f64> series only)
+    nulls: u32,
 }
 
 impl<'a> Vis<'a> {
@@ -396,7 +398,10 @@ impl<'a> Vis<'a> {
         OT: CallNo + 'static,
     {
         let len = self.len;
-        let x: Vec<i64> = (0..len as i64).map(|i| 10 + i).collect();
+        // a null element is reported to the callback as a null (`num` decodes it to i64::MIN): a null that
+        // leaves the window is still "an element leaves", not "nothing leaves"
+        let nulls = self.nulls;
+        let x: Vec<i64> = (0..len as i64).map(|i| if i < 32 && nulls >> i & 1 == 1 { i64::MIN } else { 10 + i }).collect();
         let y: Vec<i64> = (0..len as i64).map(|i| 100 + i).collect();
         let other: Vec<i32> = y.iter().map(|v| *v as i32).collect();
         let got = run_driver::<V, T, O, OT>(d, v, &other, w, path);
@@ -409,7 +414,7 @@ impl<'a> Vis<'a> {
         self.ctx.traces += 1;
         self.ctx.states += len as u64 + 1;
         self.ctx.transitions += len as u64;
-        self.ctx.nontrivial(fam, hash_bytes(format!("{d:?}{bname}{oname}{path:?}{len}/{w}{}", self.tyname).as_bytes()));
+        self.ctx.nontrivial(fam, hash_bytes(format!("{d:?}{bname}{oname}{path:?}{len}/{w}{}/{nulls}", self.tyname).as_bytes()));
         if let Err(why) = judge_trace(&got, &x, &y, w) {
             // F29: the Vec / ndarray fast paths allocate the output with O::uninit + uset, which the Polars
             // output container does not support
@@ -419,7 +424,7 @@ impl<'a> Vis<'a> {
                 entry,
                 finding,
                 size: len * 100 + w,
-                case: json!({"family": fam, "driver": format!("{d:?}"), "backend": bname, "elem": self.tyname, "output": oname, "path": format!("{path:?}"), "len": len, "w": w}),
+                case: json!({"family": fam, "driver": format!("{d:?}"), "backend": bname, "elem": self.tyname, "output": oname, "path": format!("{path:?}"), "len": len, "w": w, "null_mask": nulls}),
                 expected: "one callback per position in increasing order with the window of the protocol model; out[i] = result of call i".into(),
                 got: format!("{why}; trace {}", truncate(&format!("{got:?}"), 300)),
             });
@@ -520,12 +525,21 @@ fn run_len(len: usize, ctx: &mut Ctx, only: Option<String>) {
         (1u8, None)
     };
     {
-        let mut vis = Vis { len, tyname: "i32", ctx, only: only.clone(), ws: ws.clone() };
+        let mut vis = Vis { len, tyname: "i32", ctx, only: only.clone(), ws: ws.clone(), nulls: 0 };
         for_backends::<i32, _>(&word, level, &mut vis);
     }
     {
-        let mut vis = Vis { len, tyname: "Option<f64>", ctx, only, ws };
+        let mut vis = Vis { len, tyname: "Option<f64>", ctx, only: only.clone(), ws: ws.clone(), nulls: 0 };
         for_backends_opt(&word, level, &mut vis);
+    }
+    // series with nulls (every placement for lengths <= 4; seed round 10): the drivers hand a null element
+    // to the callback like any other - as the new element, as the element that leaves, inside a slice
+    if len <= 4 {
+        for nulls in 1u32..(1 << len) {
+            let word: Vec<X> = (0..len).map(|i| if nulls >> i & 1 == 1 { None } else { Some(10.0 + i as f64) }).collect();
+            let mut vis = Vis { len, tyname: "Option<f64>", ctx, only: only.clone(), ws: ws.clone(), nulls };
+            for_backends_opt(&word, level, &mut vis);
+        }
     }
 }
 
@@ -675,7 +689,7 @@ fn main() {
         typed::check_word(w, ctx)
     }));
     let meta = Meta {
-        rule: "protocol machine (driver x input back end x output container x out-path x len x w): the stateful callback records (call#, arguments); the recorded trace must conform event by event to the explicit model: len calls, position i gets the new element(s) at i, the element/index at i-w+1 when i>=w-1, 'nothing' when i<min(w,len)-1, unconstrained when w>len and i=len-1; slice forms get exactly x[max(0,i-w+1)..=i]; out[i] = result of call i. Elements 10+i / 100+i are distinct so identity is observable. Non-trivial = distinct (driver, back end, output, path, len, w) runs. Configuration families (DESIGN 5.15, 5.16): every driver writing into caller buffers in non-canonical layouts (wrapped rings, strided / reversed views: path BufAlt); unbounded windows usize::MAX, usize::MAX-1, 2^63+1, 2^63, 2^63-1, 2^32+1 for lengths <= 3. Round 8 (DESIGN 5.17): typed-column-slices - rolling_custom / rolling_custom_iter / rolling_custom_to on the Polars String, Int64, Float32 and Boolean columns under every chunking, every word over {null,1,2}, every window 1..=len+2.".into(),
+        rule: "protocol machine (driver x input back end x output container x out-path x len x w): the stateful callback records (call#, arguments); the recorded trace must conform event by event to the explicit model: len calls, position i gets the new element(s) at i, the element/index at i-w+1 when i>=w-1, 'nothing' when i<min(w,len)-1, unconstrained when w>len and i=len-1; slice forms get exactly x[max(0,i-w+1)..=i]; out[i] = result of call i. Elements 10+i / 100+i are distinct so identity is observable. Non-trivial = distinct (driver, back end, output, path, len, w) runs. Configuration families (DESIGN 5.15, 5.16): every driver writing into caller buffers in non-canonical layouts (wrapped rings, strided / reversed views: path BufAlt); unbounded windows usize::MAX, usize::MAX-1, 2^63+1, 2^63, 2^63-1, 2^32+1 for lengths <= 3. Round 8 (DESIGN 5.17): typed-column-slices - rolling_custom / rolling_custom_iter / rolling_custom_to on the Polars String, Int64, Float32 and Boolean columns under every chunking, every word over {null,1,2}, every window 1..=len+2. Round 9 (DESIGN 5.18): the two-series drivers also run with a second series two elements longer than the first (lengths <= 4): the output has the length of the first series.".into(),
         bounds: json!({"len": format!("0..={max_len}, and the long lengths {:?} on a reduced back-end set with windows 1, 2, 15..17, 31..33, 127..129, 255..257, len-1..len+3", &lens[max_len + 1..]), "w": "1..=len+3", "drivers": DRIVERS.iter().map(|d| format!("{d:?}")).collect::<Vec<_>>(),
             "input_backends": "Vec, Arc<Vec>, [T;N], VecDeque x 8 head offsets, Array1, ArrayView1 steps {1,2,3,-1,-2}, ArrayViewMut1, Arc<Array1> (elements i32 and Option<f64>), OptIter<Vec<f64>>, OptIter<Array1<f64>>, Float64Chunked/&Float64Chunked under every chunking into <=3 chunks",
             "outputs": "Vec, VecDeque, Array1, Int32Chunked (returned and caller buffer)"}),
